@@ -99,6 +99,12 @@ def field_selectors(names, keys, rng, budget):
                         list(range(nf))[slice(c[-1], None if c[0] == 0 else c[0] - 1, -1)], False))
             out.append((f"unordnames", [keys[i] for i in d], d, False))
             out.append((f"neglist:{[i - nf for i in c]}", [i - nf for i in c], list(c), False))
+    # indices counted from the end: the run of the last two / three fields as a list and as an array, and every field
+    for kk in (2, 3, nf):
+        if 2 <= kk <= nf:
+            tail = list(range(-kk, 0))
+            out.append((f"negtail:{tail}", tail, list(range(nf - kk, nf)), False))
+            out.append((f"negtailarr:{tail}", np.array(tail), list(range(nf - kk, nf)), False))
     # lists that are not ascending although their last element is not below the first (a check of the
     # end points alone lets them through): an interior element below the first, a reversed interior, shuffled
     for _ in range(6):
